@@ -24,7 +24,7 @@ func collectHashes(bin string, prop, tier string, seed uint64, cases, workers in
 		wg.Add(1)
 		go func(w int) {
 			defer wg.Done()
-			job := Job{Mode: "run", Prop: prop, Tier: tier, Seed: seed, Worker: w, Workers: workers, From: 0, To: cases, Only: -1, DumpLog: true, MaxViol: -1}
+			job := Job{Mode: "run", Prop: prop, Tier: tier, Seed: seed, Worker: w, Workers: workers, From: 0, To: cases, Only: -1, DumpLog: true, MaxViol: -1, Spread: true}
 			js, _ := json.Marshal(job)
 			cmd := exec.Command(bin, "-test.run", "^TestVerifWorker$", "-test.timeout", "0")
 			cmd.Env = append(os.Environ(), "VERIF_JOB="+string(js))
@@ -62,7 +62,7 @@ func collectHashes(bin string, prop, tier string, seed uint64, cases, workers in
 	return out, firstErr
 }
 
-var selftestCases = map[string]int{"C06": 400, "C07": 400, "C08": 3000, "C12": 150, "C14": 120, "C15": 300, "C16": 10, "C18": 300}
+var selftestCases = map[string]int{"C06": 400, "C07": 400, "C08": 3000, "C12": 150, "C14": 120, "C15": 300, "C16": 25, "C18": 300}
 
 // selftestDeterminism: for each property the per-case event-log hash (op log,
 // stream bytes, exit status, step count, final filesystem state, schedule and
